@@ -2,9 +2,11 @@
 
 A case is the whole life of ONE receiver (Saml2Client or Server): the metadata it starts with and a list
 of operations -- verifications of signed messages, metadata reloads, failed reloads -- in order.  The old
-single-shot cells are lives with one verification.  Observed per verification: accept/reject AND every
-certificate handed to a verifier (the file named on the xmlsec1 command line; for detached signatures the
-public key that reaches the RSA primitive)."""
+single-shot cells are lives with one verification.  A message carries a LIST of signed elements (a signed
+Response around a signed Assertion: two signatures, varied independently).  Observed per message:
+accept/reject AND, per signed element, every certificate handed to a verifier (the file named on the
+xmlsec1 command line, attributed to the element by --node-id; for detached signatures the public key that
+reaches the RSA primitive)."""
 import base64
 import copy
 import hashlib
@@ -36,8 +38,15 @@ RULE = ("(A) complete product: signer key {issuer signing, issuer rotated signin
         "encryption-only / keys swapped between two members / unknown issuer added) x 6 receiver kinds (SP Response, SP "
         "Assertion, IdP POST, IdP SOAP, IdP Redirect, IdP mixed): probe every (signer, claimed issuer) pair, reload "
         "(Entity.reload_metadata or MetadataStore.reload), probe again, reload back, probe again; generations with an "
-        "unreadable certificate; seeded random walks over verifications / reloads / failed reloads.  Real RSA, real metadata; "
-        "observed per verification: accept/reject AND the certificates handed to the verifier.  non-trivial = every case "
+        "unreadable certificate; seeded random walks over verifications / reloads / failed reloads.  (D) messages with "
+        "SEVERAL signatures: a Response and the Assertion inside it, each unsigned or signed, the two signatures varied "
+        "independently -- signer key (6 x 6), issuer named by each element {E, O, U, Response without Issuer}, KeyInfo of "
+        "each, fallback flag, content altered under the inner / the outer signature only, Assertion plain or encrypted, "
+        "issuer metadata shapes -- for the receiver that insists on a signed Response and for the one that insists on signed "
+        "Assertions; the same messages around metadata reloads; seeded random doubly signed messages in random lives.  "
+        "Real RSA, real metadata; "
+        "observed per message: accept/reject AND, per signed element (xmlsec1 --node-id), the certificates handed to the "
+        "verifier.  non-trivial = every case "
         "except (issuer key, that entity, no KeyInfo, default flag)")
 TRUSTED = ["xmlsec1 stand-in restricted to --pubkey-cert-pem as invoked by the unmodified CryptoBackendXmlSec1 (a certificate "
            "file that does not load = non-zero exit, as the binary does)",
@@ -45,7 +54,16 @@ TRUSTED = ["xmlsec1 stand-in restricted to --pubkey-cert-pem as invoked by the u
            "abstraction certificate octets -> symbolic key / 'no certificate'",
            "observation hook on saml2.cryptography.asymmetric.key_verify (records the public key, then calls the original)",
            "saml2.cryptography.asymmetric.load_pem_private_key memoised on the PEM octets (speed only: every Entity loads "
-           "its key twice)"]
+           "its key twice)",
+           "translator v2 harness/py2coq2.py + coq/theories/Base/Py2.v (semantics and trusted base: notes/translator_v2.md); "
+           "re-translated from the current source text on every run into coq/gen/C03Src2.v and tied to the model by "
+           "C03/Source2.v: mdstore.MetaData.certs.extract_certs (nested function), mdstore.MetaData.certs (the walk, with "
+           "the nested def cut out), sigver.SecurityContext._check_signature (two statement blocks: certificate selection "
+           "up to `raise MissingKey`, verification loop from `verified = False` to `return item`), "
+           "request.Request._do_redirect_sig_check, response.AuthnResponse._assertion (its first statement: the signature "
+           "step), response.AuthnResponse.parse_assertion (the statement that sends the plain assertions through "
+           "_assertion); the statement blocks are cut out of the methods by harness/c03.py (work/C03/slices/), which adds "
+           "the function header and, where the block falls through, `return certs` / `return True`"]
 ASSUMPTIONS = ["ideal signatures (hypotheses verify_spec, sign_inj of C03/Proofs.v); real RSA is executed in the correspondence",
                "each entity is described by one metadata source (multi-source order is C11)",
                "metadata changes through Entity.reload_metadata / MetadataStore.reload (MDQ refresh needs a network peer: "
@@ -158,9 +176,10 @@ class C03Popen:
     def __init__(self, com_list, stderr=None, stdout=None, **kw):
         argv = list(com_list[1:])
         if "--verify" in argv:
+            node = argv[argv.index("--node-id") + 1] if "--node-id" in argv[:-1] else ""
             for i, a in enumerate(argv[:-1]):
                 if a.startswith("--pubkey-cert-") or a == "--pubkey-pem":
-                    HANDED.append(classify_file(argv[i + 1]))
+                    HANDED.append([node, classify_file(argv[i + 1])])
         try:
             self.returncode, self._out, self._err = env.standin().main(argv)
         except Exception as e:  # noqa
@@ -200,9 +219,9 @@ def install_hooks():
         def key_verify(rsakey, signature, message, digest):
             try:
                 pub = rsakey.public_key() if hasattr(rsakey, "private_numbers") else rsakey
-                HANDED.append(["G", _by_modulus.get(pub.public_numbers().n, 99)])
+                HANDED.append([None, ["G", _by_modulus.get(pub.public_numbers().n, 99)]])
             except Exception:  # noqa
-                HANDED.append(["G", 98])
+                HANDED.append([None, ["G", 98]])
             return orig(rsakey, signature, message, digest)
 
         key_verify._c03_hook = True
@@ -314,6 +333,34 @@ def coq_md(recv, md):
 # ------------------------------------------------------------------------------------ cases
 def chk(kind, signer, claimed, keyinfo="none", tampered=False):
     return {"op": "check", "kind": kind, "signer": signer, "claimed": claimed, "keyinfo": keyinfo, "tampered": tampered}
+
+
+def sg(signer, claimed, keyinfo="none", tampered=False):
+    """one signed element of a message: who signed it, which issuer it names (E, O, U; N = the Response carries no
+    Issuer element), what its ds:KeyInfo embeds, whether its content was altered after signing"""
+    return {"signer": signer, "claimed": claimed, "keyinfo": keyinfo, "tampered": tampered}
+
+
+def chk2(outer, inner, enc=False):
+    """A Response that carries up to two signatures, varied independently: outer = the signature on the Response
+    (None: the Response is unsigned and names the Assertion's issuer), inner = the signature on the Assertion inside
+    it (None: unsigned); enc: the Assertion travels as an EncryptedAssertion (signed, then encrypted for the SP)."""
+    return {"op": "check", "kind": "signed_response", "outer": outer, "inner": inner, "enc": bool(enc)}
+
+
+NODE_OF_KIND = {"response": "r-1", "assertion": "a-1", "authnreq_post": "q-1", "logoutreq_soap": "q-1", "redirect": None}
+
+
+def parts_of(c):
+    """the signed elements of one message in the order the receiver verifies them: [(node id, element spec)]"""
+    if c["kind"] != "signed_response":
+        return [(NODE_OF_KIND[c["kind"]], c)]
+    out = []
+    if c["outer"]:
+        out.append(("r-1", c["outer"]))
+    if c["inner"]:
+        out.append(("a-1", c["inner"]))
+    return out
 
 
 def life(recv, only_md, md, ops, part):
@@ -448,8 +495,106 @@ def gen_lives(rng, thorough):
     return cases
 
 
+DPROBES = [(("idp", "E"), ("idp2", "E")), (("idp2", "E"), ("idp", "E")), (("idp", "E"), ("attacker", "E")),
+           (("attacker", "E"), ("idp", "E")), (("other", "O"), ("other", "O")), (("idp", "E"), ("other", "E")),
+           (("idp", "E"), ("idp", "O")), (("other", "E"), ("other", "E"))]
+
+
+def gen_multi(rng, thorough):
+    """(D) messages with SEVERAL signatures: a Response and the Assertion inside it, each unsigned or signed, the two
+    signatures varied independently (key, named issuer, KeyInfo, alteration after signing), plain or encrypted
+    Assertion, for the receiver that insists on a signed Response and for the one that insists on signed Assertions"""
+    cases = []
+    recvs = ("sp_response", "sp_assertion")
+
+    def add(recv, only_md, c, md=None):
+        if recv == "sp_response" and not c["outer"] or recv == "sp_assertion" and not c["inner"]:
+            return      # a missing required signature is C01's subject
+        cases.append(life(recv, only_md, md or G0(), [c], "D"))
+
+    for recv in recvs:
+        # every signer key on either element, both naming the issuer
+        for so in SIGNERS:
+            for si in SIGNERS:
+                add(recv, True, chk2(sg(so, "E"), sg(si, "E")))
+        # one of the two unsigned (through the same renderer), plain and encrypted
+        for k in SIGNERS:
+            for enc in (False, True):
+                add(recv, True, chk2(sg(k, "E"), None, enc))
+                add(recv, True, chk2(None, sg(k, "E"), enc))
+        # the issuer named by each element, independently (N: Response without Issuer)
+        for co, ci in (("E", "O"), ("O", "E"), ("O", "O"), ("E", "U"), ("U", "E"), ("N", "E"), ("N", "O")):
+            for so in ("idp", "other", "attacker"):
+                for si in ("idp", "other", "attacker"):
+                    add(recv, True, chk2(sg(so, co), sg(si, ci)))
+        # the opt-in fallback, per element: embedded certificate usable only for the element whose issuer has no key
+        for co, ci in (("U", "U"), ("E", "U"), ("U", "E"), ("E", "E"), ("N", "E"), ("N", "U")):
+            for so in ("idp", "attacker"):
+                for si in ("idp", "attacker"):
+                    for ko, ki in (("signer", "signer"), ("signer", "none"), ("none", "signer"), ("victim", "victim")):
+                        if (ko, ki) != ("signer", "signer") and not thorough and (co, ci) not in (("U", "U"), ("E", "U")):
+                            continue
+                        add(recv, False, chk2(sg(so, co, ko), sg(si, ci, ki)))
+        # embedded KeyInfo under the default flag never counts, on either element
+        for ko, ki in (("signer", "signer"), ("rsa", "signer"), ("signer", "rsa"), ("victim", "victim")):
+            for so, si in (("idp", "attacker"), ("attacker", "idp"), ("attacker", "attacker"), ("idp", "idp")):
+                add(recv, True, chk2(sg(so, "E", ko), sg(si, "E", ki)))
+        # the signed Assertion travels encrypted
+        for so in ("idp", "idp2", "attacker"):
+            for si in ("idp", "idp2", "idpenc", "other", "sp", "attacker"):
+                add(recv, True, chk2(sg(so, "E"), sg(si, "E"), True))
+        for si in ("idp", "attacker"):
+            add(recv, True, chk2(sg("idp", "E"), sg(si, "O"), True))
+            add(recv, False, chk2(sg("idp", "E", "signer"), sg(si, "U", "signer"), True))
+        # content altered after signing: under the inner signature only / outside the Assertion only
+        for enc in (False, True):
+            for so, si in (("idp", "idp"), ("idp", "idp2"), ("idp2", "idp")):
+                add(recv, True, chk2(sg(so, "E"), sg(si, "E", "none", True), enc))
+                add(recv, True, chk2(sg(so, "E", "none", True), sg(si, "E"), enc))
+        # what the issuer publishes: a single key, an unreadable certificate first, a KeyDescriptor without certificate
+        for shape in ([["signing", "idp2"]], [["signing", "J0"], ["signing", "idp"]], [[None, "B2"], ["signing", "idp"]],
+                      [["encryption", "idp"], [None, "idp2"]], []):
+            md = [ent("E", [copy.deepcopy(shape)]), ent("O", [[[None, "other"]]])]
+            for so, si in (("idp", "idp2"), ("idp2", "idp"), ("idp", "idp"), ("idp2", "idp2"), ("idp", "attacker")):
+                add(recv, True, chk2(sg(so, "E"), sg(si, "E")), md)
+    # lives: doubly signed messages around metadata reloads
+    gens = generations()
+    for recv in recvs:
+        for a, b in (("g0", "g1"), ("g1", "g0"), ("g0", "g2"), ("g0", "g3"), ("g0", "g4"), ("g4", "g0"), ("g2", "g5")):
+            def dprobes(k):
+                return [chk2(sg(*o), sg(*i), enc=(j + k) % 3 == 0) for j, (o, i) in enumerate(DPROBES)]
+            ops = dprobes(0) + [{"op": "reload", "md": gens[b], "via": "entity"}] + dprobes(1)
+            ops += [{"op": "reload", "md": gens[a], "via": "store"}, {"op": "reload_bad", "how": "xml"}] + dprobes(2)
+            cases.append(life(recv, True, gens[a], ops, "D"))
+    # seeded random messages in random lives
+    names = sorted(gens)
+    for _ in range(160 if thorough else 40):
+        recv = rng.choice(recvs)
+        only_md = rng.random() < 0.7
+        ops = []
+        for _ in range(rng.randint(3, 8)):
+            r = rng.random()
+            if r < 0.75:
+                ki = ["none", "none", "signer", "victim", "rsa"]
+                o = sg(rng.choice(SIGNERS), rng.choice(["E", "E", "E", "O", "U", "N"]), rng.choice(ki), rng.random() < 0.08)
+                i = sg(rng.choice(SIGNERS), rng.choice(["E", "E", "E", "O", "U"]), rng.choice(ki), rng.random() < 0.08)
+                if recv == "sp_assertion" and rng.random() < 0.2:
+                    o = None
+                elif recv == "sp_response" and rng.random() < 0.2:
+                    i = None
+                ops.append(chk2(o, i, rng.random() < 0.3))
+            elif r < 0.93:
+                ops.append({"op": "reload", "md": gens[rng.choice(names)], "via": rng.choice(["entity", "store"])})
+            else:
+                ops.append({"op": "reload_bad", "how": rng.choice(["xml", "type"])})
+        if not any(o["op"] == "check" for o in ops):
+            ops.append(chk2(sg("idp", "E"), sg("idp", "E")))
+        cases.append(life(recv, only_md, gens[rng.choice(names)], ops, "D"))
+    return cases
+
+
 def generate(ctx):
-    return gen_cells() + gen_shapes(ctx.rng, ctx.thorough) + gen_lives(ctx.rng, ctx.thorough)
+    return gen_cells() + gen_shapes(ctx.rng, ctx.thorough) + gen_lives(ctx.rng, ctx.thorough) + gen_multi(ctx.rng, ctx.thorough)
 
 
 # ------------------------------------------------------------------------------------ running the real code
@@ -483,6 +628,8 @@ def receiver(case):
 
 
 def keyinfo_for(c):
+    if c is None:
+        return None
     ki = c["keyinfo"]
     if ki == "none":
         return None
@@ -496,9 +643,42 @@ def keyinfo_for(c):
 _msg = {}
 
 
+def message2(recv, c):
+    """A Response with up to two independent signatures: sign the Assertion, alter what only the inner signature
+    covers, encrypt, sign the Response, alter what only the outer signature covers."""
+    ids = ids_for_recv(recv)
+    o, i = c["outer"], c["inner"]
+    a_issuer = ids[i["claimed"]] if i else ids[o["claimed"] if o["claimed"] != "N" else "E"]
+    r_issuer = (None if o["claimed"] == "N" else ids[o["claimed"]]) if o else a_issuer
+    a = spaccept.good_assertion(issuer=a_issuer)
+    r = spaccept.good_response(issuer=r_issuer)
+    if i:
+        a["sig_template"] = render.signature_template(a["id"], keyinfo_for(i))
+    r["assertions_xml"] = [render.assertion(a)]
+    if o:
+        r["sig_template"] = render.signature_template(r["id"], keyinfo_for(o))
+    xml = render.response(r)
+    if i:
+        xml = render.sign_xml(xml, i["signer"], render.A_ELEM, a["id"])
+        if i["tampered"]:
+            xml = render.tamper_text(xml, "subject-1", "subject-2")
+    if c["enc"]:
+        xml = render.encrypt_assertion_in_response(xml, "sp")
+    if o:
+        xml = render.sign_xml(xml, o["signer"], render.R_ELEM, r["id"])
+        if o["tampered"]:       # the Response's own IssueInstant (first in document order), one second earlier
+            xml = render.tamper_text(xml, 'IssueInstant="%s"' % env.iso(spaccept.NOW), 'IssueInstant="%s"' % env.iso(spaccept.NOW - 1))
+    return ("xml", xml)
+
+
 def message(recv, c):
     """The signed message of one verification (rendered and signed independently of pysaml2; memoised: the
     same octets may be presented many times in one life)."""
+    if c["kind"] == "signed_response":
+        key = (recv, json.dumps(c, sort_keys=True))
+        if key not in _msg:
+            _msg[key] = message2(recv, c)
+        return _msg[key]
     key = (recv, c["kind"], c["signer"], c["claimed"], c["keyinfo"], bool(c["tampered"]))
     if key in _msg:
         return _msg[key]
@@ -546,7 +726,7 @@ def run_check(rcv, recv, c):
     accepted = False
     exc = None
     del HANDED[:]
-    if kind in ("response", "assertion"):
+    if kind in ("response", "assertion", "signed_response"):
         from saml2.population import Population
 
         rcv.users = Population()
@@ -564,7 +744,19 @@ def run_check(rcv, recv, c):
             accepted = res is not None and getattr(res, "message", None) is not None
         except Exception as e:  # noqa
             exc = type(e).__name__
-    return {"accept": bool(accepted), "handed": [list(h) for h in HANDED], "exc": exc}
+    # the certificates handed to a verifier, per signed element (xmlsec1 is told the element by --node-id; the
+    # in-process verification of a query string has none); a verification of anything else gets a list of its own
+    nodes = [n for n, _ in parts_of(c)]
+    handed = [[] for _ in nodes]
+    stray = []
+    for n, h in HANDED:
+        if n in nodes:
+            handed[nodes.index(n)].append(list(h))
+        else:
+            stray.append(list(h))
+    if stray:
+        handed.append(stray)
+    return {"accept": bool(accepted), "handed": handed, "exc": exc}
 
 
 def observe(case):
@@ -598,22 +790,29 @@ def observe(case):
 
 
 # ------------------------------------------------------------------------------------ Coq terms
-def coq_check(recv, c):
-    detached = c["kind"] == "redirect"
-    ki = c["keyinfo"]
+def coq_part(recv, p, detached=False):
+    ki = p["keyinfo"]
     if detached or ki in ("none", "rsa"):
         emb = []
     elif ki == "signer":
-        emb = [["G", KEYS[c["signer"]]]]
+        emb = [["G", KEYS[p["signer"]]]]
     else:
         emb = [["G", 1]]
-    return "ck (Some %s) [%s] %s %d%%nat %s" % (
-        cq_id(ids_for_recv(recv)[c["claimed"]]), "; ".join(coq_cert(x) for x in emb), cq(detached), KEYS[c["signer"]],
-        cq(bool(c["tampered"])))
+    claimed = "None" if p["claimed"] == "N" else "(Some %s)" % cq_id(ids_for_recv(recv)[p["claimed"]])
+    return "%s [%s] %s %d%%nat %s" % (claimed, "; ".join(coq_cert(x) for x in emb), cq(detached), KEYS[p["signer"]],
+                                    cq(bool(p["tampered"])))
+
+
+def coq_check(recv, c):
+    if c["kind"] == "signed_response":
+        # the receiver's configuration insists on the Response's signature (sp_response) / the Assertion's (sp_assertion)
+        insist = {"r-1": recv == "sp_response", "a-1": recv == "sp_assertion"}
+        return "ckm [%s]" % "; ".join("pt %s %s" % (cq(insist[n]), coq_part(recv, p)) for n, p in parts_of(c))
+    return "ck " + coq_part(recv, c, c["kind"] == "redirect")
 
 
 def coq_out(st):
-    return "(%s, [%s])" % (cq(bool(st["accept"])), "; ".join(coq_cert(h) for h in st["handed"]))
+    return "(%s, [%s])" % (cq(bool(st["accept"])), "; ".join("[%s]" % "; ".join(coq_cert(h) for h in hs) for hs in st["handed"]))
 
 
 def coq_case(case, obs):
@@ -646,7 +845,7 @@ def nontrivial(case, obs):
 def histogram(cases, observed):
     h = {"by_part": {}, "by_recv": {}, "verifications": 0, "reloads": 0, "failed_reloads": 0, "reloads_refused": 0,
          "accepted": 0, "rejected": 0, "exceptions": {}, "handed_lengths": {}, "unreadable_handed": 0,
-         "ops_per_life": {}}
+         "ops_per_life": {}, "signatures_per_message": {}, "encrypted_assertions": 0}
     for c, o in zip(cases, observed):
         h["by_part"][c["part"]] = h["by_part"].get(c["part"], 0) + 1
         h["by_recv"][c["recv"]] = h["by_recv"].get(c["recv"], 0) + 1
@@ -662,9 +861,14 @@ def histogram(cases, observed):
             else:
                 h["verifications"] += 1
                 h["accepted" if st["accept"] else "rejected"] += 1
-                k = str(len(st["handed"]))
+                flat = [x for hs in st["handed"] for x in hs]
+                k = str(len(flat))
                 h["handed_lengths"][k] = h["handed_lengths"].get(k, 0) + 1
-                h["unreadable_handed"] += sum(1 for x in st["handed"] if x[0] == "J")
+                h["unreadable_handed"] += sum(1 for x in flat if x[0] == "J")
+                k = str(len(parts_of(op)))
+                h["signatures_per_message"][k] = h["signatures_per_message"].get(k, 0) + 1
+                if op["kind"] == "signed_response" and op["enc"]:
+                    h["encrypted_assertions"] += 1
                 if st["exc"]:
                     h["exceptions"][st["exc"]] = h["exceptions"].get(st["exc"], 0) + 1
     return h
@@ -672,3 +876,203 @@ def histogram(cases, observed):
 
 def explain_term(t):
     return "C03.Corr.explain (%s)" % t
+
+
+# ------------------------------------------------------------------------------------ source tie, translator v2
+# Decision functions of the anchored code are re-translated from the CURRENT source text on every run into
+# coq/gen/C03Src2.v; coq/theories/C03/Source2.v proves, for all inputs, that each translated function applied to the
+# encoding of the model's input is the encoding of what the model function it mirrors answers.
+SLICE_DIR = None
+
+
+def _slice_dir():
+    import os
+    from harness import common
+
+    d = os.path.join(common.WORK, "C03", "slices")
+    os.makedirs(d, exist_ok=True)
+    return d
+
+
+def _cut(src_rel, qualname, out_name, header, pick, footer=""):
+    """Cut consecutive top-level statements out of the body of `qualname` (CURRENT source text) into a function of
+    its own: work/C03/slices/<out_name>.py.  pick(body) -> (first index, last index) or None.  When the block cannot be
+    found the file holds no function and the translation is refused (poisoned definition = broken obligation)."""
+    import ast
+    import os
+    from harness import common, py2coq2
+
+    out = os.path.join(_slice_dir(), out_name + ".py")
+    text = "# slice not found\n"
+    try:
+        with open(os.path.join(env.SRC, "saml2", src_rel)) as f:
+            src = f.read()
+        fn = py2coq2.find_function(ast.parse(src), qualname)
+        rng_ = pick(fn.body)
+        if rng_ is not None:
+            ranges = rng_ if isinstance(rng_, list) else [rng_]
+            lines = src.splitlines()
+            keep = []
+            for i, j in ranges:
+                keep += lines[fn.body[i].lineno - 1:fn.body[j].end_lineno]
+            text = "# cut from saml2/%s %s, lines %s\n%s\n%s\n%s" % (
+                src_rel, qualname, ", ".join("%d-%d" % (fn.body[i].lineno, fn.body[j].end_lineno) for i, j in ranges),
+                header, "\n".join(keep), footer)
+    except Exception as e:  # fail closed
+        text = "# slice failed: %s\n" % type(e).__name__
+    common.write_if_changed(out, text)
+    return out
+
+
+def _is_assign_to(st, name):
+    import ast
+
+    return (isinstance(st, ast.Assign) and len(st.targets) == 1 and isinstance(st.targets[0], ast.Name)
+            and st.targets[0].id == name)
+
+
+def _one(xs):
+    return xs[0] if len(xs) == 1 else None
+
+
+def slice_select():
+    """_check_signature, certificate selection: from the first statement (`try: _issuer = item.issuer.text.strip()`)
+    up to and including `if not certs: raise MissingKey(_issuer)`; the harness adds the header and `return certs`."""
+    import ast
+
+    def pick(body):
+        body0 = 1 if (isinstance(body[0], ast.Expr) and isinstance(getattr(body[0], "value", None), ast.Constant)) else 0
+        end = _one([k for k, st in enumerate(body) if isinstance(st, ast.If) and len(st.body) == 1
+                    and isinstance(st.body[0], ast.Raise) and isinstance(st.body[0].exc, ast.Call)
+                    and getattr(st.body[0].exc.func, "id", None) == "MissingKey"])
+        return None if end is None or not isinstance(body[body0], ast.Try) else (body0, end)
+
+    return _cut("sigver.py", "SecurityContext._check_signature", "sigver_check_signature_select",
+                "def _check_signature__select(self, item, issuer):", pick, "        return certs\n")
+
+
+def slice_verify():
+    """_check_signature, verification loop: from `verified = False` to the end of the method (`return item`)."""
+    def pick(body):
+        i = _one([k for k, st in enumerate(body) if _is_assign_to(st, "verified")])
+        return None if i is None else (i, len(body) - 1)
+
+    return _cut("sigver.py", "SecurityContext._check_signature", "sigver_check_signature_verify",
+                "def _check_signature__verify(self, decoded_xml, item, node_name, certs, only_valid_cert):", pick)
+
+
+def slice_certs_outer():
+    """MetaData.certs without its nested function: the statement before `def extract_certs` (`ent = self[entity_id]`)
+    and the statements after it (the walk over the role descriptors)."""
+    import ast
+
+    def pick(body):
+        i = _one([k for k, st in enumerate(body) if isinstance(st, ast.FunctionDef) and st.name == "extract_certs"])
+        ok = i is not None and i >= 1 and _is_assign_to(body[i - 1], "ent") and i + 1 < len(body)
+        return [(i - 1, i - 1), (i + 1, len(body) - 1)] if ok else None
+
+    return _cut("mdstore.py", "MetaData.certs", "mdstore_certs_outer",
+                "def certs__outer(self, entity_id, descriptor, use):", pick)
+
+
+def slice_assertion_sig():
+    """AuthnResponse._assertion, the signature step: its first statement (if unsigned ... else check_signature)."""
+    import ast
+
+    def pick(body):
+        body0 = 1 if (isinstance(body[0], ast.Expr) and isinstance(getattr(body[0], "value", None), ast.Constant)) else 0
+        return (body0, body0) if isinstance(body[body0], ast.If) else None
+
+    return _cut("response.py", "AuthnResponse._assertion", "response_assertion_sig",
+                "def _assertion__sig(self, assertion, verified):", pick, "        return True\n")
+
+
+def slice_plain_assertions():
+    """AuthnResponse.parse_assertion, the unencrypted assertions: the statement `if self.response.assertion: for
+    assertion in ...: if not self._assertion(assertion, <verified>): return False`; the harness adds `return True`."""
+    import ast
+
+    def pick(body):
+        def hit(st):
+            return (isinstance(st, ast.If) and isinstance(st.test, ast.Attribute) and st.test.attr == "assertion"
+                    and any(isinstance(x, ast.For) for x in st.body)
+                    and any(isinstance(c, ast.Call) and getattr(c.func, "attr", None) == "_assertion" for c in ast.walk(st)))
+        i = _one([k for k, st in enumerate(body) if hit(st)])
+        return None if i is None else (i, i)
+
+    return _cut("response.py", "AuthnResponse.parse_assertion", "response_parse_assertion_plain",
+                "def parse_assertion__plain(self, keys):", pick, "        return True\n")
+
+
+SRC2_EXC = {"SignatureError": ["SigverError", "SAMLError", "Exception"], "MissingKey": ["SigverError", "SAMLError", "Exception"],
+            "XmlsecError": ["SigverError", "SAMLError", "Exception"], "CertificateError": ["SigverError", "SAMLError", "Exception"],
+            "SigverError": ["SAMLError", "Exception"], "SAMLError": ["Exception"]}
+
+
+def src2_items():
+    import os
+
+    S = os.path.join(env.SRC, "saml2")
+    any_signing = ['(PStr "any")', '(PStr "signing")']
+    return [
+        # the KeyDescriptor use filter; a KeyDescriptor without certificate text contributes nothing
+        (os.path.join(S, "mdstore.py"), "MetaData.certs.extract_certs",
+         {"name": "src2_extract_certs", "params": ["srvs"],
+          "extra_params": [("repack", "pyval -> pyval"), ("v_use", "pyval")], "globals": {"use": "v_use"},
+          "calls": {"repack_cert": lambda a: "(repack %s)" % a[0] if len(a) == 1 else "PErr"}}),
+        # the walk over the role descriptors of the entity looked up under the issuer's entityID
+        (slice_certs_outer(), "certs__outer",
+         {"name": "src2_certs_outer", "params": ["self", "entity_id", "descriptor", "use"],
+          "extra_params": [("repack", "pyval -> pyval")],
+          "calls": {"extract_certs": lambda a: "(src2_extract_certs repack v_use %s)" % a[0] if len(a) == 1 else "PErr"}}),
+        # certificate selection: metadata first, embedded certificates only as the opt-in fallback, none => MissingKey
+        (slice_select(), "_check_signature__select",
+         {"name": "src2_select", "params": ["self", "item", "issuer"], "attr_errors": True, "exc_parents": SRC2_EXC,
+          "extra_params": [("md_certs", "pyval -> pyval"), ("pem", "pyval -> pyval"), ("mk_temp", "pyval -> pyval"),
+                           ("instance_certs", "pyval -> pyval")],
+          "ignore_calls": ["logger.debug"],
+          "calls": {"self.metadata.certs": lambda a: "(md_certs %s)" % a[0] if a[1:] == any_signing else "PErr",
+                    "pem_format": lambda a: "(pem %s)" % a[0] if len(a) == 1 else "PErr",
+                    "make_temp": lambda a, kw: "(mk_temp %s)" % (a[0] if a else kw.get("content", "PErr")),
+                    "cert_from_instance": lambda a: "(instance_certs %s)" % a[0] if len(a) == 1 else "PErr"}}),
+        # the verification loop: xmlsec1 is handed ONE certificate at a time, first success wins, none => SignatureError
+        (slice_verify(), "_check_signature__verify",
+         {"name": "src2_verify_loop", "params": ["self", "decoded_xml", "item", "node_name", "certs", "only_valid_cert"],
+          "attr_errors": True, "exc_parents": SRC2_EXC,
+          "extra_params": [("verify_sig", "pyval -> pyval -> pyval -> pyval -> pyval"), ("verify_cert", "pyval -> pyval")],
+          "ignore_calls": ["logger.error"],
+          "calls": {"self.verify_signature": lambda a, kw: "(verify_sig %s %s %s %s)" % (a[0], a[1], kw["node_name"], kw["node_id"])
+                    if len(a) == 2 and sorted(kw) == ["node_id", "node_name"] else "PErr",
+                    "self.cert_handler.verify_cert": lambda a: "(verify_cert %s)" % a[0] if len(a) == 1 else "PErr"}}),
+        # detached (query string) signatures: SOME signing certificate of the sender verifies; octets that are no
+        # certificate are passed over
+        (os.path.join(S, "request.py"), "Request._do_redirect_sig_check",
+         {"name": "src2_redirect_sig_check", "params": ["self", "_saml_msg"], "attr_errors": True,
+          "extra_params": [("sender", "pyval -> pyval"), ("md_certs", "pyval -> pyval"), ("verify_sig", "pyval -> pyval -> pyval")],
+          "ignore_calls": ["logger.debug", "logger.warning"],
+          "calls": {"self.sender": lambda a: "(sender v_self)" if not a else "PErr",
+                    "self.sec.metadata.certs": lambda a: "(md_certs %s)" % a[0] if a[1:] == any_signing else "PErr",
+                    "verify_redirect_signature": lambda a: "(verify_sig %s %s)" % (a[0], a[2]) if len(a) == 3 else "PErr"}}),
+        # the Assertion inside a Response: its own signature is verified unless the caller says it already was
+        (slice_assertion_sig(), "_assertion__sig",
+         {"name": "src2_assertion_sig", "params": ["self", "assertion", "verified"], "attr_errors": True, "exc_parents": SRC2_EXC,
+          "extra_params": [("check_sig", "pyval -> pyval -> pyval -> pyval")],
+          "ignore_calls": ["logger.debug", "logger.error"],
+          "calls": {"self.sec.check_signature": lambda a: "(check_sig %s %s %s)" % tuple(a) if len(a) == 3 else "PErr",
+                    "class_name": lambda a: '(p2_attr_x %s "c_node_name")' % a[0] if len(a) == 1 else "PErr"}}),
+        # every plain Assertion of a Response goes through _assertion with verified = False
+        (slice_plain_assertions(), "parse_assertion__plain",
+         {"name": "src2_plain_assertions", "params": ["self", "keys"], "attr_errors": True,
+          "extra_params": [("assertion_ok", "pyval -> pyval -> pyval")],
+          "ignore_calls": ["logger.debug"],
+          "calls": {"self._assertion": lambda a: "(assertion_ok %s %s)" % tuple(a) if len(a) == 2 else "PErr"}}),
+    ]
+
+
+def regenerate_tables(ctx):
+    import os
+    from harness import common, py2coq2
+
+    info = py2coq2.regenerate(os.path.join(common.GEN, "C03Src2.v"), src2_items())
+    info["unit"] = "functions re-translated from the current source text (translator v2); C03/Source2.v: one theorem each"
+    return info
